@@ -129,6 +129,9 @@ def utc_phase(call, timing):
 
 def rand_weight(rng):
     c = rng.random()
+    if c < 0.06:
+        # "all positive weights": tiny and huge ones too (powers of two: exact in binary floating point)
+        return rng.choice([[1, 2 ** 24], [1, 2 ** 30], [1, 2 ** 40], [1, 2 ** 70], [2 ** 40, 1], [3, 2 ** 33]])
     if c < 0.5:
         return [1, 1]
     if c < 0.8:
